@@ -55,6 +55,13 @@ func Test_apply(t *testing.T) {
 		require.NoError(t, err)
 		assert.Empty(t, vcs)
 	})
+	t.Run("pick with min greater than max can't be fulfilled", func(t *testing.T) {
+		minimum, maximum := 2, 1
+		twoVCs := []selectableVC{selectableVC(vc.VerifiableCredential{ID: &id}), selectableVC(vc.VerifiableCredential{ID: &id})}
+		vcs, err := apply(twoVCs, SubmissionRequirement{Rule: "pick", Min: &minimum, Max: &maximum})
+		assert.ErrorIs(t, err, ErrNoCredentials)
+		assert.Empty(t, vcs)
+	})
 	t.Run("pick without count, min and max", func(t *testing.T) {
 		vcs, err := apply(list, SubmissionRequirement{Rule: "pick"})
 		require.NoError(t, err)
